@@ -62,6 +62,17 @@ def scratch_root():
     return base
 
 
+def remove_at_exit(path):
+    """delete a per-process fixture directory when the creating process exits (not in forked children)"""
+    import atexit
+    pid = os.getpid()
+
+    def _rm():
+        if os.getpid() == pid:
+            shutil.rmtree(path, ignore_errors=True)
+    atexit.register(_rm)
+
+
 _SANDBOX_DEPTH = [0]
 
 
